@@ -93,6 +93,10 @@ def make_harness(bases):
         bno = e.choice(len(bases), "base")
         twins = e.flag("content_identical_twins")
         recipe = _twinify(bases[bno]) if twins else bases[bno]
+        if e.flag("last_leaf_falsy"):
+            from models.shapes import falsify
+
+            recipe = falsify(recipe)
         # prehistory: caches keyed by node hash / equality must not leak between trees.  An
         # identical tree is built, indexed and queried, then detached (its ids are taken over by
         # the tree under test) or replaced by an equal root.
@@ -201,7 +205,7 @@ def make_harness(bases):
 
 def spec(tier: str, seed: int) -> Spec:
     if tier == "quick":
-        bases = all_shapes(6, 3)
+        bases = all_shapes(5, 3) + all_shapes(6, 3)[422::3]
     else:
         bases = all_shapes(7, 3)
     extra = [R("VMany", items=tuple(R("VLeaf", {"v": i}) for i in range(12)) + (R("VReq", child=R("VLeaf", {"v": 99})),))]
@@ -211,7 +215,7 @@ def spec(tier: str, seed: int) -> Spec:
     return Spec(
         families=fams,
         functions=FUNCTIONS,
-        bounds={"trees": len(bases), "nodes_per_tree": "all shapes up to 6 nodes" if tier == "quick" else "all shapes up to 7 nodes", "depth": 3, "ancestor_class_sets": len(ANC_CLASSES)},
+        bounds={"trees": len(bases), "nodes_per_tree": "all shapes up to 5 nodes and every third shape with 6" if tier == "quick" else "all shapes up to 7 nodes", "depth": 3, "ancestor_class_sets": len(ANC_CLASSES)},
         rule="a case = (tree, twins or distinct leaves, query kind) with every node / ordered pair / member twin as argument; all non-trivial; distinct by that tuple",
         variables="selectors (tree, twins, query kind, member, class set); lazy booleans exact_type, check_ancestor",
         assumptions=["all nodes registered when the Tree is built, no node object occurs twice (precondition of the statement)", "KeyError demanded for foreign nodes from every query method except is_in_tree / is_root; ValueError only with check_ancestor=True"],
